@@ -73,17 +73,27 @@ static void reset_all() {
 int main(int argc, char **argv) {
     LogOutput_Disable();
     vt::enable(1000, 1700000000000LL);
-    loop = Loop::New(argc > 1 ? argv[1] : "epoll");
+    std::string engine = argc > 1 ? argv[1] : "epoll", next_engine = engine;
+    bool eof = false;
+  while (!eof) {
+    engine = next_engine;
+    loop = Loop::New(engine);
     vh::LoopDriver drv(loop);
     bool pending_adv = false;
     drv.step = [&]() -> bool {
         if (pending_adv) { std::cout << "P ret=1 en=" << bits() << "\n"; pending_adv = false; }
         std::string line;
-        if (!std::getline(std::cin, line)) { reset_all(); return false; }
+        if (!std::getline(std::cin, line)) { reset_all(); eof = true; return false; }
         auto w = vh::words(line);
         if (w.empty()) return true;
         if (w[0] == "case") { reset_all(); std::cout << line << "\n"; return true; }
         uint64_t n;
+        if (w[0] == "engine" && w.size() == 2 && (w[1] == "epoll" || w[1] == "select") && objs.empty()) {
+            // only as the first op of a case: switch the back-end (leave this loop, start the other)
+            std::cout << "P engine=" << w[1] << "\n";
+            if (w[1] != engine) { next_engine = w[1]; return false; }
+            return true;
+        }
         if (w[0] == "new" && w.size() == 2) {
             size_t id = objs.size();
             std::vector<Act> sc;
@@ -115,5 +125,6 @@ int main(int argc, char **argv) {
     };
     drv.run();
     delete loop;
+  }
     return 0;
 }
